@@ -103,6 +103,10 @@ func (enc *encoder) encodeAny(anyField j5reflect.AnyField) error {
 		jsonData = innerBytes
 	}
 
+	if jsonData == nil {
+		return fmt.Errorf("any type %q has neither j5_json nor proto to encode", val.TypeName)
+	}
+
 	enc.openObject()
 	defer enc.closeObject()
 
